@@ -736,6 +736,11 @@ pub fn caps() -> BoxedStrategy<Caps> {
 impl Property for C05 {
     type Case = Case;
 
+    fn fuzz(&self) -> Option<FuzzSpec> {
+        // entropy-driven target: libFuzzer's bytes replace the generator's random numbers
+        Some(FuzzSpec { target: "gen", jobs: 8, runs: 400_000, max_len: 2048, seeds: 64 })
+    }
+
     fn id(&self) -> &'static str {
         "C05"
     }
